@@ -146,6 +146,25 @@ static void l1_cb(const unsigned char *s, size_t n, int ntok, void *arg) {
 static mc_enum_t L1E;
 static void l1_shard(long shard, void *arg) { (void)arg; mc_enum_t e = L1E; mc_enum_shard(&e, shard); }
 
+/* thorough only: one token deeper, NUL-terminated context only */
+static int C_L1D;
+static void l1deep_cb(const unsigned char *s, size_t n, int ntok, void *arg) {
+    (void)arg;
+    if (ntok < L1E.N + 1) return;            /* shorter strings were done with all contexts */
+    char buf[80]; memcpy(buf, s, n); buf[n] = 0;
+    for (int mi = 0; mi < NMODES; mi++) {
+        int mode = MODES[mi];
+        int exp = ref_local(s, n, mode, REF_OPTS);
+        int rc0 = LOCAL[mode](buf, buf + n);
+        MC_ADD(C_EVAL, 1); MC_ADD(C_L1D, 1);
+        if (exp != R_ANY && (rc0 == 0) != (exp == R_ACC)) {
+            char cfg[32]; snprintf(cfg, sizeof cfg, "mode=%s", mode_name(mode));
+            mc_violation("L1", why_of(mode, s, n, exp, rc0, "local"), "", cfg, s, n, "is_%s_local(NUL-terminated): reference %s, library rc=%d", mode_name(mode), exp == R_ACC ? "ACCEPT" : "REJECT", rc0);
+        }
+    }
+}
+static void l1deep_shard(long shard, void *arg) { (void)arg; mc_enum_t e = L1E; e.N = L1E.N + 1; e.fn = l1deep_cb; mc_enum_shard(&e, shard); }
+
 /* ---------------- L2 ---------------- */
 typedef struct { int mode, opts; } pctx_t;
 static int p_step(int ps, int b, void *c) {
@@ -336,7 +355,7 @@ int main(int argc, char **argv) {
     mc_init(argc, argv, PROP);
     C_L1 = mc_counter("L1_strings_x_modes"); C_L2 = mc_counter("L2_strings"); C_L2P = mc_counter("L2_pair_strings");
     C_L2W = mc_counter("L2_Wmethod_strings"); L2M = mc_thorough ? 3 : 2;
-    C_L3 = mc_counter("L3_strings"); C_U = mc_counter("utf8_sweep_strings");
+    C_L3 = mc_counter("L3_strings"); C_L1D = mc_counter("L1_deep_strings_x_modes"); C_U = mc_counter("utf8_sweep_strings");
     C_ACC = mc_counter("ref_accept"); C_REJ = mc_counter("ref_reject"); C_ANY = mc_counter("ref_any"); C_IMPLACC = mc_counter("impl_accept");
 #ifdef C03
     C_SCALARS = mc_counter("scalars_a.X.b");
@@ -377,6 +396,10 @@ int main(int argc, char **argv) {
     {
         char nm[64]; snprintf(nm, sizeof nm, "L1:all strings of <= %d tokens over %d classes", n1, NSIGC);
         mc_parallel(nm, mc_enum_shards(&L1E), l1_shard, NULL);
+    }
+    if (mc_thorough) {
+        char nm[96]; snprintf(nm, sizeof nm, "L1+: all strings of exactly %d tokens, NUL-terminated context", n1 + 1);
+        mc_parallel(nm, mc_enum_shards(&L1E), l1deep_shard, NULL);
     }
     L3MAX1 = mc_thorough ? 120 : 70; L3MAX2 = mc_thorough ? 16 : 8;
     mc_parallel("L3:long inputs, <=2 deviations", (long)NFILL * L3MAX1, l3_shard, NULL);
